@@ -32,7 +32,7 @@ func genC02(t *rapid.T, tier string) C02Case {
 		maxOps = 90
 	}
 	w := core.OpWeights{
-		core.OpInsert: 20, core.OpInsertNew: 25, core.OpUpdate: 8, core.OpInsertSame: 2, core.OpDelete: 25,
+		core.OpInsert: 20, core.OpInsertNew: 25, core.OpUpdate: 8, core.OpInsertSame: 2, core.OpDelete: 25, core.OpDeleteTop: 6,
 		core.OpClone: 8, core.OpPersistFail: 2, core.OpPersist: 10, core.OpReload: 8, core.OpReloadJSON: 2, core.OpDrain: 1, core.OpGet: 2,
 	}
 	prog := core.GenProgram(t, w, maxOps, 4)
